@@ -34,8 +34,8 @@ func Main(c *run.Ctx) {
 		"each is followed by a well-formed canary push; distinct key = route class × content type × mutation operator × answer class")
 	c.Assume("a request unanswered after 15 s counts as wedged only if two goroutine dumps 2 s apart show the same goroutine of the request in the same qryn frames")
 	c.Assume("database = fake insert client that always succeeds")
-	total := c.Pick(3000, 120000)
-	lanes := c.Pick(4, 12)
+	total := c.Pick(12000, 240000)
+	lanes := c.Pick(8, 14)
 	per := (total + lanes - 1) / lanes
 	var wg sync.WaitGroup
 	for l := 0; l < lanes; l++ {
